@@ -64,6 +64,13 @@ LEAVES += [
 #       afterwards (the "min-shift condition")
 #   boot_loop_len / cv_loop_len             `for i in range(len(ceil_set))` -> number of folds visited
 #   boot_defaults / cv_defaults             default `method` / descriptor arguments (codes)
+#   pool_input_writes / pooling_input_writes / ceiling_input_writes   (round 4) number of statements of
+#       `pool_rdm` (each file, incl. the module-level helpers it hands its data to) / of the two ceilings that
+#       write IN PLACE into an array aliasing the caller's RDMs object: augmented assignment, subscript /
+#       attribute assignment, `out=` / `copy=False`, `np.copyto` / `np.put*`, `.sort()` / `.fill()` ... on a
+#       name that still refers to `rdms.get_vectors()` / `rdms.dissimilarities` or a view of it (`np.asarray`,
+#       `.reshape`, slicing, a row of a loop).  A syntactic may-alias analysis, conservative (anything not
+#       understood counts as a write); 0 on a tree whose calls leave their argument alone.
 import ast
 import os
 
@@ -201,6 +208,191 @@ def _defaults(name, descriptor_arg):
     return str(code)
 
 
+# ---- round 4: may-alias analysis for in-place writes into the caller's data ------------------------------
+
+_VIEW_FUNCS = {'np.asarray', 'np.asanyarray', 'np.ascontiguousarray', 'np.asfortranarray', 'np.atleast_1d',
+               'np.atleast_2d', 'np.atleast_3d', 'np.ravel', 'np.reshape', 'np.squeeze', 'np.transpose',
+               'np.swapaxes', 'np.moveaxis', 'np.expand_dims', 'np.broadcast_to', 'np.nan_to_num', 'np.real',
+               'np.diagonal', 'np.triu', 'np.tril', 'np.require', 'np.array', 'numpy.asarray', 'numpy.array'}
+_VIEW_METHODS = {'get_vectors', 'view', 'reshape', 'ravel', 'squeeze', 'transpose', 'swapaxes', 'astype',
+                 'diagonal', 'get_matrices', '__array__', 'flat', 'conj'}
+_COPY_METHODS = {'copy', 'flatten', 'tolist', 'mean', 'sum', 'std', 'var', 'min', 'max', 'any', 'all', 'dot',
+                 'subset', 'subsample', 'subset_pattern', 'subsample_pattern', 'item', 'argsort', 'nonzero'}
+_MUT_METHODS = {'sort', 'fill', 'put', 'itemset', 'partition', 'resize', 'setfield', 'setflags', 'byteswap',
+                '__setitem__', '__iadd__', '__isub__', '__imul__', '__itruediv__', 'sort_by', 'reorder', 'append',
+                'update', 'pop', 'clear', 'extend', 'insert', 'remove', 'setdefault'}
+_MUT_FUNCS = {'np.copyto', 'np.put', 'np.place', 'np.putmask', 'np.fill_diagonal', 'np.put_along_axis',
+              'setattr', 'np.random.shuffle'}
+
+
+class _Writes:
+    """count in-place writes into arrays that may alias the data of the parameter `root` of function
+    `fname` of one module (module-level helpers that receive an alias are followed)"""
+
+    def __init__(self, path):
+        self.tree = ast.parse(open(os.path.join(SRC, path)).read())
+        self.funcs = {n.name: n for n in self.tree.body if isinstance(n, ast.FunctionDef)}
+        self.stack = []
+
+    def run(self, fname, roots):
+        if fname not in self.funcs:
+            raise Underivable(f'function {fname} not found')
+        if fname in self.stack or len(self.stack) > 6:
+            raise Underivable(f'recursion through {fname}')
+        self.stack.append(fname)
+        fn = self.funcs[fname]
+        env = set(roots)
+        writes, ret = self.block(fn.body, env)
+        self.stack.pop()
+        return writes, ret
+
+    def alias(self, e, env):
+        if isinstance(e, ast.Name):
+            return e.id in env
+        if isinstance(e, ast.Attribute):
+            return self.alias(e.value, env)
+        if isinstance(e, (ast.Subscript, ast.Starred)):
+            return self.alias(e.value, env)
+        if isinstance(e, ast.IfExp):
+            return self.alias(e.body, env) or self.alias(e.orelse, env)
+        if isinstance(e, ast.BoolOp):
+            return any(self.alias(v, env) for v in e.values)
+        if isinstance(e, (ast.Tuple, ast.List)):
+            return any(self.alias(v, env) for v in e.elts)
+        if isinstance(e, ast.NamedExpr):
+            return self.alias(e.value, env)
+        if isinstance(e, ast.Call):
+            f = e.func
+            name = ast.unparse(f)
+            args = list(e.args) + [k.value for k in e.keywords]
+            if isinstance(f, ast.Attribute) and self.alias(f.value, env):
+                if f.attr in _COPY_METHODS:
+                    return False
+                return True                     # any other method of an alias may return a view
+            if name in _VIEW_FUNCS:
+                if name in ('np.array', 'numpy.array') and not any(
+                        k.arg == 'copy' and ast.unparse(k.value) != 'True' for k in e.keywords):
+                    return False                # np.array copies by default
+                return any(self.alias(a, env) for a in args)
+            if isinstance(f, ast.Name) and f.id in self.funcs:
+                idx = [i for i, a in enumerate(e.args) if self.alias(a, env)]
+                kws = [k.arg for k in e.keywords if self.alias(k.value, env)]
+                if not idx and not kws:
+                    return False
+                params = [a.arg for a in self.funcs[f.id].args.args]
+                roots = [params[i] for i in idx if i < len(params)] + [k for k in kws if k]
+                return self.run(f.id, roots)[1]
+            return False                        # other calls (numpy reductions, arithmetic helpers) return new arrays
+        return False                            # arithmetic, comparisons, comprehensions, constants: new objects
+
+    def scan(self, e, env):
+        """writes caused by evaluating an expression: helpers that get an alias, `out=`, mutating calls"""
+        w = 0
+        env = set(env)
+        for node in ast.walk(e):
+            if isinstance(node, (ast.ListComp, ast.SetComp, ast.GeneratorExp, ast.DictComp)):
+                for g in node.generators:
+                    if self.alias(g.iter, env):
+                        env |= {n.id for n in ast.walk(g.target) if isinstance(n, ast.Name)}
+        for node in ast.walk(e):
+            if not isinstance(node, ast.Call):
+                continue
+            f = node.func
+            name = ast.unparse(f)
+            for k in node.keywords:
+                if k.arg == 'out' and self.alias(k.value, env):
+                    w += 1
+                if k.arg == 'copy' and ast.unparse(k.value) == 'False' and name not in _VIEW_FUNCS \
+                        and not (isinstance(f, ast.Attribute) and f.attr == 'astype') \
+                        and any(self.alias(a, env) for a in node.args):
+                    w += 1
+            if name in _MUT_FUNCS and node.args and self.alias(node.args[0], env):
+                w += 1
+            if isinstance(f, ast.Attribute) and f.attr in _MUT_METHODS and self.alias(f.value, env):
+                w += 1
+            if isinstance(f, ast.Name) and f.id in self.funcs:
+                idx = [i for i, a in enumerate(node.args) if self.alias(a, env)]
+                kws = [k.arg for k in node.keywords if k.arg and self.alias(k.value, env)]
+                if idx or kws:
+                    params = [a.arg for a in self.funcs[f.id].args.args]
+                    w += self.run(f.id, [params[i] for i in idx if i < len(params)] + kws)[0]
+        return w
+
+    def bind(self, target, is_alias, env):
+        w = 0
+        if isinstance(target, ast.Name):
+            (env.add if is_alias else env.discard)(target.id)
+        elif isinstance(target, (ast.Tuple, ast.List)):
+            for t in target.elts:
+                w += self.bind(t, is_alias, env)
+        elif isinstance(target, (ast.Subscript, ast.Attribute, ast.Starred)):
+            if self.alias(target.value, env):
+                w += 1                          # x[...] = ..., x.attr = ... on the caller's data
+        return w
+
+    def block(self, body, env):
+        w, ret = 0, False
+        for st in body:
+            if isinstance(st, ast.Assign):
+                w += self.scan(st.value, env)
+                a = self.alias(st.value, env)
+                for t in st.targets:
+                    w += self.bind(t, a, env)
+            elif isinstance(st, ast.AnnAssign):
+                if st.value is not None:
+                    w += self.scan(st.value, env)
+                    w += self.bind(st.target, self.alias(st.value, env), env)
+            elif isinstance(st, ast.AugAssign):
+                w += self.scan(st.value, env)
+                t = st.target
+                if self.alias(t if isinstance(t, ast.Name) else t.value, env):
+                    w += 1                      # x -= ..., x[...] /= ... on the caller's data
+            elif isinstance(st, ast.Return):
+                if st.value is not None:
+                    w += self.scan(st.value, env)
+                    ret = ret or self.alias(st.value, env)
+            elif isinstance(st, (ast.Expr, ast.Assert, ast.Raise)):
+                for e in ast.iter_child_nodes(st):
+                    if isinstance(e, ast.expr):
+                        w += self.scan(e, env)
+            elif isinstance(st, ast.If):
+                w += self.scan(st.test, env)
+                e1, e2 = set(env), set(env)
+                w1, r1 = self.block(st.body, e1)
+                w2, r2 = self.block(st.orelse, e2)
+                env.clear()
+                env |= e1 | e2
+                w, ret = w + w1 + w2, ret or r1 or r2
+            elif isinstance(st, (ast.For, ast.While)):
+                if isinstance(st, ast.For):
+                    w += self.scan(st.iter, env)
+                    self.bind(st.target, self.alias(st.iter, env), env)
+                else:
+                    w += self.scan(st.test, env)
+                self.block(st.body, env)                     # first pass: which names become aliases
+                w1, r1 = self.block(st.body, env)            # second pass counts with the loop-carried aliases
+                w2, r2 = self.block(st.orelse, env)
+                w, ret = w + w1 + w2, ret or r1 or r2
+            elif isinstance(st, (ast.With, ast.Try)):
+                inner = list(st.body) + [x for h in getattr(st, 'handlers', []) for x in h.body] \
+                    + list(getattr(st, 'orelse', [])) + list(getattr(st, 'finalbody', []))
+                w1, r1 = self.block(inner, env)
+                w, ret = w + w1, ret or r1
+            elif isinstance(st, (ast.Pass, ast.Import, ast.ImportFrom, ast.Break, ast.Continue, ast.Global,
+                                 ast.Nonlocal)):
+                pass
+            elif isinstance(st, ast.Delete):
+                w += sum(1 for t in st.targets if not isinstance(t, ast.Name) and self.alias(t.value, env))
+            else:
+                raise Underivable(f'statement {type(st).__name__} not understood')
+        return w, ret
+
+
+def _input_writes(path, fnames):
+    a = _Writes(path)
+    return str(sum(a.run(f, ['rdms'])[0] for f in fnames))
+
+
 def _derive():
     out = ['# DERIVED by harness/leaves/C07.py from the source tree under check - do not edit', '']
 
@@ -223,6 +415,10 @@ def _derive():
     emit('cv_loop_len', ['len_ceil_set'], lambda: _loop_len('cv_noise_ceiling'))
     emit('boot_defaults', [], lambda: _defaults('boot_noise_ceiling', 'rdm_descriptor'))
     emit('cv_defaults', [], lambda: _defaults('cv_noise_ceiling', 'pattern_descriptor'))
+    emit('pool_input_writes', [], lambda: _input_writes(_IU, ['pool_rdm']))
+    emit('pooling_input_writes', [], lambda: _input_writes(_PO, ['pool_rdm']))
+    emit('ceiling_input_writes', [], lambda: _input_writes('inference/noise_ceiling.py',
+                                                           ['boot_noise_ceiling', 'cv_noise_ceiling']))
     text = '\n'.join(out)
     if not (os.path.exists(DERIVED) and open(DERIVED).read() == text):
         with open(DERIVED + '.tmp', 'w') as f:
@@ -248,4 +444,7 @@ LEAVES += [
          params={'len_ceil_set': 'Nat'}, ret='Nat'),
     dict(name='bootDefaults', file=DERIVED, func='boot_defaults', kind='func', params={}, ret='Nat'),
     dict(name='cvDefaults', file=DERIVED, func='cv_defaults', kind='func', params={}, ret='Nat'),
+    dict(name='poolInputWrites', file=DERIVED, func='pool_input_writes', kind='func', params={}, ret='Nat'),
+    dict(name='poolingInputWrites', file=DERIVED, func='pooling_input_writes', kind='func', params={}, ret='Nat'),
+    dict(name='ceilingInputWrites', file=DERIVED, func='ceiling_input_writes', kind='func', params={}, ret='Nat'),
 ]
